@@ -11,7 +11,7 @@ from persim import bottleneck
 from ..core import Clause, close
 from ..oracles import matching as M
 from ..strategies import diagram_family, valid_family
-from ._dist import (near_identical_pair, EMPTY_FORMS, INF, as_input, call_quiet, coord_scale, has_dup, lattice_slice_cases,
+from ._dist import (decimal_singleton_cases, near_identical_pair, EMPTY_FORMS, INF, as_input, call_quiet, coord_scale, has_dup, lattice_slice_cases,
                     pair_labels, small_pairs)
 
 HASHSEEDS = "vary"   # shard i runs with PYTHONHASHSEED=i: the Hopcroft-Karp search order is a per-process configuration
@@ -47,11 +47,14 @@ def check_value_small(case, ctx):
     scale, _ = coord_scale(A, B)
     ctx.require(np.ndim(out) == 0 and close(out, ref, scale), "value",
                 lambda: "bottleneck=%r, min over all %d matchings=%r; A=%s B=%s" % (out, info["count"], ref, A, B))
+    res, _ = call_quiet(ctx, bottleneck, as_input(A, case["ea"], case["as_list"]), as_input(B, case["eb"], case["as_list"]), matching=True)
+    ctx.require(isinstance(res, tuple) and close(res[0], ref, scale), "value_with_matching_flag",
+                lambda: "bottleneck(..., matching=True) returns distance %r, min over all matchings=%r; A=%s B=%s" % (res[0] if isinstance(res, tuple) else res, ref, A, B))
 
 
 s_value_small = st.fixed_dictionaries({
     "fam": small_pairs(6 if os.environ.get("PV_TIER") == "thorough" else 5), "ea": st.sampled_from(EMPTY_FORMS), "eb": st.sampled_from(EMPTY_FORMS),
-    "as_list": st.booleans()})
+    "as_list": st.sampled_from([False, False, True, "narrow"])})
 
 
 def check_value_medium(case, ctx):
@@ -142,10 +145,18 @@ def check_near_identical(case, ctx):
                 lambda: "bottleneck=%r, min over all matchings=%r (nearly identical diagrams, perturbation 1e-%d); A=%s B=%s" % (out, ref, case["k"], A, B))
 
 
+def check_decimal(case, ctx):
+    A, B = case["A"], case["B"]
+    ref, _ = M.brute(A, B, "b")
+    ctx.nontrivial(len(A) > 0 and len(B) > 0)
+    out = ctx.call(bottleneck, as_input(A), as_input(B))
+    ctx.require(close(out, ref, coord_scale(A, B)[0]), "value", lambda: "bottleneck=%r, definition=%r; A=%s B=%s" % (out, ref, A, B))
+
+
 CLAUSES = [
     Clause("value_small", s_value_small, check_value_small, quick=6400, thorough=80000, fuzz=True,
            floors={"mixed_optimum": 0.05, "tie": 0.05},
-           rule="0..5 points each (0..6 in the thorough tier), all empty forms, array or nested-list input; oracle = minimum over ALL partial matchings; "
+           rule="0..5 points each (0..6 in the thorough tier), all empty forms, float64 array, nested-list or narrowest-integer-array (uint8 / int16 / int32) input; oracle = minimum over ALL partial matchings; "
                 "non-trivial = both non-empty and (an optimal matching mixes cross and diagonal pairs, or two candidate costs tie "
                 "exactly / within 2 ulp, or a point is repeated)"),
     Clause("value_medium", s_value_medium, check_value_medium, quick=960, thorough=8000,
@@ -161,6 +172,10 @@ CLAUSES = [
     Clause("lattice_slice", cases=lambda: lattice_slice_cases(2, 4), check=check_slice,
            rule="EXHAUSTIVE: all 23409 ordered pairs of multisets of <= 2 points on the 16-point lattice {(b,b+l): b,l in 0..3}; "
                 "exact equality with the definition; non-trivial as for value_small"),
+    Clause("decimal_singletons", cases=decimal_singleton_cases, check=check_decimal,
+           rule="EXHAUSTIVE: all 4 x 8281 ordered pairs of diagrams with <= 1 point on {(b,b+l)*s: b in 0..9, l in 1..9} for the decimal steps "
+                "s in {0.1, 0.01, 1/3, 0.7} (coordinates not exactly representable: mathematically equal candidate costs differ by an ulp); "
+                "non-trivial = both non-empty"),
     Clause("lattice_slice_3", cases=lambda: lattice_slice_cases(3, 3), check=check_slice, thorough_only=True,
            rule="EXHAUSTIVE, thorough tier only: all 48400 ordered pairs of multisets of <= 3 points on the 9-point lattice {(b,b+l): b,l in 0..2}"),
     Clause("cross_hashseed", st.fixed_dictionaries({"fam": diagram_family(count=2, min_size=1, max_size=12, dup_bias=True)}),
